@@ -217,6 +217,40 @@ def check_tournament(costs, ranked, pair, coin):
     return out
 
 
+def check_truncate_gaps(vectors, drop_front, mode, k):
+    """A ranked population from which one whole front has been removed (a filtered subset), or whose front numbers are the
+    uniform 0 / -1 of unranked particles: truncation is by the front numbers and crowding distances the members carry."""
+    from artap.operators import nondominated_truncate
+    pop = build(vectors, "id")
+    if mode == "drop":
+        pop = [p for p in pop if p.features['front_number'] != drop_front]
+    elif mode == "shift":
+        for p in pop:
+            p.features['front_number'] += 3
+    else:
+        for p in pop:
+            p.features['front_number'] = 0 if mode == "zero" else -1
+    if not pop:
+        return []
+    front = {tuple(p.vector): p.features['front_number'] for p in pop}
+    designs = list(dict.fromkeys(tuple(p.vector) for p in pop))
+    try:
+        res = nondominated_truncate(list(pop), k)
+    except Exception as e:
+        return [("C03:truncate:gaps:exception:%s" % type(e).__name__, "truncate raised %r on front numbers %r" % (e, sorted(front.values())))]
+    kept = [tuple(r.vector) for r in res]
+    desc = "vectors %r, front numbers %r (%s), k=%d -> %r" % ([tuple(p.vector) for p in pop], [p.features['front_number'] for p in pop], mode, k, kept)
+    out = []
+    if len(res) != min(k, len(designs)):
+        out.append(("C03:truncate:size:front-numbers-not-contiguous:%s" % ("too-few" if len(res) < min(k, len(designs)) else "too-many"), "expected %d survivors: %s" % (min(k, len(designs)), desc)))
+    if len(set(kept)) != len(kept):
+        out.append(("C03:truncate:duplicate-design", desc))
+    dropped = [d for d in designs if d not in kept]
+    if kept and dropped and max(front[d] for d in kept) > min(front[d] for d in dropped):
+        out.append(("C03:truncate:rank-order:front-numbers-not-contiguous", desc))
+    return out
+
+
 def large_columns(n):
     def column(mult, off):
         step = mult
@@ -311,6 +345,17 @@ def _shard(shard, col: Collector):
                                           "designs %r, %r, %r; the first was moved %s onto the second after a truncation: truncate returned %r" % (a, b, c, how, kept),
                                           {"a": a, "b": b, "c": c, "how": how})
         col.sample({"kind": "truncate after an individual moved onto another design", "designs": [vecs[0], vecs[1], vecs[2]]}, 1)
+    elif kind == "trunc_gaps":
+        vecs = list(itertools.product(LAT, repeat=2))
+        for n in (2, 3, 4):
+            for vs in itertools.product(vecs[::2] if n == 4 else vecs, repeat=n):
+                for mode, drop in (("drop", 1), ("drop", 2), ("shift", 0), ("zero", 0), ("minus", 0)):
+                    for k in range(1, n + 1):
+                        col.case()
+                        col.nontrivial(("tg", vs, mode, drop, k))
+                        for key, msg in check_truncate_gaps(list(vs), drop, mode, k):
+                            col.violation(key, "trunc_gaps", msg, {"vectors": vs, "drop": drop, "mode": mode, "k": k})
+        col.sample({"kind": "truncate with gaps in the front numbers"}, 1)
     elif kind == "crowd_large":
         # large tie-free fronts, 1-3 objectives: exact formula
         _, n = shard
@@ -363,6 +408,8 @@ def replay(sub, case):
     t = lambda v: tuple(v)
     if sub == "trunc":
         return check_truncate([t(v) for v in case["vectors"]], case["fn"], case["k"])
+    if sub == "trunc_gaps":
+        return check_truncate_gaps([tuple(v) for v in case["vectors"]], case["drop"], case["mode"], case["k"])
     if sub == "crowd_large":
         out = []
         for cols in large_columns(case["n"]):
@@ -421,6 +468,7 @@ def run(tier, seed):
     shards += [("crowd_exact", n, 1, tuple(float(x * x) for x in range(n))) for n in (7, 8, 12)]
     shards += [("crowd_big", n) for n in (7, 9)] + [("crowd_scale",), ("trunc_moved",)]
     shards += [("trunc_big", n) for n in (31, 32, 33, 63, 64, 65, 100, 127, 128, 129, 255, 256, 257) + ((1000,) if tier == "thorough" else ())]
+    shards += [("trunc_gaps",)]
     shards += [("crowd_large", n) for n in (31, 32, 33, 64, 65, 100, 128, 129, 257, 1000)]
     for n in (1, 2, 3, 4, 5) + ((6,) if tier == "thorough" else ()):
         for m in (1, 2, 3):
